@@ -16,6 +16,9 @@ import (
 
 	"github.com/yorkie-team/yorkie/api/converter"
 
+	"github.com/yorkie-team/yorkie/pkg/document"
+	yjson "github.com/yorkie-team/yorkie/pkg/document/json"
+
 	"verifmc/hist"
 	"verifmc/sched"
 )
@@ -37,6 +40,8 @@ type sScenario struct {
 	NoLogOracle bool
 	// ExpectErr: errors matching are legal outcomes of a thread (e.g. a push that loses against a remove).
 	LegalErr func(thread string, err string) bool
+	// Post is an extra oracle evaluated after the window (before the convergence round).
+	Post func(sw *sWorld) string
 }
 
 type sThread struct {
@@ -153,6 +158,56 @@ func sScenarios() []*sScenario {
 			LegalErr: func(th, e string) bool {
 				return strings.Contains(e, "epoch") || strings.Contains(e, "not attached") || strings.Contains(e, "not activated") || strings.Contains(e, "not found")
 			}},
+		{Name: "attach(c0)||attach(c1) of a new document", Clients: 2, Attached: 0, Threshold: hist.Big, Interval: hist.Big,
+			Threads: func(sw *sWorld) []sThread {
+				// both requests find no document with this key: exactly one may create it
+				_ = sw.clients[0].doc.Update(func(r *yjson.Object, p *document.Presence) error {
+					r.SetNewCounter("c", 0)
+					r.SetNewArray("a")
+					return nil
+				})
+				return []sThread{
+					{"attach(c0)", func() error { return sw.attach(sw.clients[0]) }},
+					{"attach(c1)", func() error { return sw.attach(sw.clients[1]) }},
+				}
+			},
+			StillAttached: all, LegalErr: noErr,
+			Post: func(sw *sWorld) string {
+				if sw.clients[0].docID != sw.clients[1].docID {
+					return fmt.Sprintf("two documents were created for one key: %s and %s", sw.clients[0].docID, sw.clients[1].docID)
+				}
+				return ""
+			}},
+		{Name: "pushpull(c0,docA)||pushpull(c0,docB) same client, two documents", Clients: 2, Attached: 2, Threshold: hist.Big, Interval: hist.Big,
+			Threads: func(sw *sWorld) []sThread {
+				c := sw.clients[0]
+				b, err := sw.second(c)
+				if err != nil {
+					return []sThread{{"setup", func() error { return err }}}
+				}
+				sw.edit(c)
+				sw.editOther(b)
+				return []sThread{
+					{"pushpull(c0,docA)", func() error { return sw.pushpull(c) }},
+					{"pushpull(c0,docB)", func() error { return sw.pushpullOther(b) }},
+				}
+			},
+			StillAttached: all, LegalErr: noErr,
+			Post: func(sw *sWorld) string { return sw.storedCheckpoints(sw.clients[0]) }},
+		{Name: "detach(c1)||deactivate(c1) same client", Clients: 2, Attached: 2, Threshold: hist.Big, Interval: hist.Big,
+			Threads: func(sw *sWorld) []sThread {
+				sw.edit(sw.clients[1])
+				return []sThread{
+					{"detach(c1)", func() error { return sw.detach(sw.clients[1]) }},
+					{"deactivate(c1)", func() error { return sw.deactivate(sw.clients[1]) }},
+				}
+			},
+			StillAttached: func(sw *sWorld, res []string) []*sClient { return sw.clients[:1] },
+			LegalErr: func(th, e string) bool {
+				// whoever comes second finds the document detached / the client deactivated
+				return strings.Contains(e, "not attached") || strings.Contains(e, "not activated") || strings.Contains(e, "not found") || strings.Contains(e, "already")
+			},
+			Post: func(sw *sWorld) string { return sw.goneFromDocument(sw.clients[1]) }},
 		{Name: "remove(c0)||pushpull(c1)", Clients: 2, Attached: 2, Threshold: hist.Big, Interval: hist.Big,
 			Threads: func(sw *sWorld) []sThread {
 				sw.edit(sw.clients[1])
@@ -224,6 +279,12 @@ func sRunOne(sc *sScenario, prefix []int, keepTrace bool) (x *sched.Exec, msg st
 	}
 	if len(x.OrderViol) > 0 {
 		return x, "lock order: " + x.OrderViol[0]
+	}
+	if sc.Post != nil {
+		sw.w.WaitBackground()
+		if m := sc.Post(sw); m != "" {
+			return x, "state: " + m
+		}
 	}
 	if !sc.NoLogOracle {
 		if m := sw.logOracle(false); m != "" {
